@@ -6,6 +6,8 @@ import (
 	"context"
 	"fmt"
 	"net"
+	"os"
+	"strings"
 	"testing"
 	"time"
 
@@ -77,7 +79,9 @@ func runC13Real(c *c13Case) *c13Obs {
 	go func() { done <- server.ListenAndServe() }()
 	time.Sleep(20 * time.Millisecond)
 	inprocDialMu.Unlock()
+	resets := LibResets()
 	obs := runC13With(c, srv, server, env)
+	obs.ResetLogged = LibResets() != resets
 	inprocDialMu.Lock()
 	_ = server.Close()
 	inprocDialMu.Unlock()
@@ -91,7 +95,11 @@ func runC13Real(c *c13Case) *c13Obs {
 func TestC13Real(t *testing.T) {
 	rec := NewRecorder("C13", "TestC13Real")
 	rapid.Check(t, func(rt *rapid.T) {
-		c := genC13(rt, []string{"tcp", "tcp", "ws", "wss", "inproc"})
+		trs := []string{"tcp", "tcp", "ws", "wss", "inproc"}
+		if v := os.Getenv("VERIF_C13_TRANSPORTS"); v != "" {
+			trs = strings.Split(v, ",")
+		}
+		c := genC13(rt, trs)
 		c.Real = true
 		o := &Outcome{}
 		rec.Journal(c)
